@@ -60,15 +60,30 @@ def _run_stock(layer, x, weights):
   return np.asarray(layer(tf.constant(x), training=False).numpy(), dtype=F32)
 
 
-def feedforward(case, ws, x, qlist, act):
-  """Dense / Conv / Depthwise / Separable / ScaleShift."""
+def feedforward(case, ws, x, qlist, act, mask_first=False):
+  """Dense / Conv / Depthwise / Separable / ScaleShift.
+
+  QConv2D `mask` ("mask for kernel weights", shape kh x kw, broadcast over
+  channels and filters): the stock layer gets q(kernel) * mask - the mask is
+  applied to the weights the quantizer produced, so a masked tap contributes
+  nothing whatever q(0) is.  mask_first=True is only the diagnostic variant
+  q(kernel * mask)."""
+  import tensorflow as tf  # pylint: disable=g-import-not-at-top
   info = {}
   roles = G.weight_roles(case)
+  ws = dict(ws)
+  mask = None
+  if case.get("mask") is not None:
+    mask = np.asarray(case["mask"], dtype=F32)[:, :, None, None]
+    if mask_first:
+      ws["kernel"] = tf.multiply(tf.constant(ws["kernel"]),
+                                 tf.constant(mask)).numpy()
   qw = [quantize(qlist.get(r), ws[r]) for r in roles]
+  if mask is not None and not mask_first:
+    qw[0] = tf.multiply(tf.constant(qw[0]), tf.constant(mask)).numpy()
   if case["layer"] == "QScaleShift":
     # documented: output = scale * x + bias (one float32 multiply, one add;
     # done with TF ops so that denormals are flushed as in every TF kernel)
-    import tensorflow as tf  # pylint: disable=g-import-not-at-top
     y = tf.multiply(tf.constant(x), tf.constant(qw[0]))
     if len(qw) > 1:
       y = tf.add(tf.constant(qw[1]), y)
@@ -188,10 +203,11 @@ def pooling(case, x, qlist):
   return ref, tol, qf
 
 
-def reference(case, ws, x, qlist, act, ract=None, mode="loop"):
+def reference(case, ws, x, qlist, act, ract=None, mode="loop",
+              mask_first=False):
   fam = G.FAMILY[case["layer"]]
   if fam == "ff":
-    return feedforward(case, ws, x, qlist, act)
+    return feedforward(case, ws, x, qlist, act, mask_first=mask_first)
   if fam == "rnn":
     return recurrent(case, ws, x, qlist, act, ract, mode=mode)
   raise ValueError(fam)
